@@ -5,6 +5,10 @@ use std::cell::Cell;
 
 pub struct Counting;
 
+/// Bytes requested by all threads since process start (a monitor thread can watch a runaway
+/// computation on another thread through it).
+pub static GLOBAL_TOTAL: std::sync::atomic::AtomicUsize = std::sync::atomic::AtomicUsize::new(0);
+
 thread_local! {
     static LIVE: Cell<isize> = const { Cell::new(0) };
     static PEAK: Cell<isize> = const { Cell::new(0) };
@@ -32,6 +36,7 @@ fn on_alloc(size: usize) {
             m.set(size)
         }
     });
+    GLOBAL_TOTAL.fetch_add(size, std::sync::atomic::Ordering::Relaxed);
     let _ = TOTAL.try_with(|t| t.set(t.get().wrapping_add(size)));
     let _ = ALLOCS.try_with(|t| t.set(t.get().wrapping_add(1)));
 }
